@@ -15,7 +15,7 @@ bits, CR/LF skipped anywhere), `encodeURL` (`parse.EncodeURL`), `decodeURL` (`pa
 
 Modelled from `/repo/common.go`: `dataURI` (the whole of `minify.DataURI`; the sub-minifier `m.Bytes` is the
 parameter `sub`, `none` = no minifier registered or the minifier failed) and `mediatype`
-(`minify.Mediatype`, including the in-place buffer arithmetic that mixes input and output coordinates).
+(`minify.Mediatype`, including its `< 1024` rule in the code's buffer coordinates).
 -/
 namespace Verif.Model.DataURI
 open Verif
@@ -169,15 +169,15 @@ def pctLen (t : Char → Bool) (d : List Char) : Nat := d.length + 2 * (d.filter
 
 def semiBase64 : List Char := ";base64".toList
 
-/-- strip a leading `text/plain` (case-insensitive; **no check of what follows it**) -/
-def stripTextPlain (mt : List Char) : List Char :=
-  if 10 ≤ mt.length ∧ equalFold (mt.take 10) textPlain then mt.drop 10 else mt
-
-/-- remove the first `;charset=us-ascii` (case-insensitive) that is followed by `;` or the end -/
 def endOrSemi : List Char → Bool
   | [] => true
   | d :: _ => d = ';'
 
+/-- strip a leading `text/plain` (case-insensitive) when the media type ends there or a `;` follows -/
+def stripTextPlain (mt : List Char) : List Char :=
+  if 10 ≤ mt.length ∧ equalFold (mt.take 10) textPlain ∧ endOrSemi (mt.drop 10) then mt.drop 10 else mt
+
+/-- remove the first `;charset=us-ascii` (case-insensitive) that is followed by `;` or the end -/
 def stripCharset : List Char → List Char
   | [] => []
   | c :: r =>
@@ -202,43 +202,40 @@ def dataURI (sub : List Char → List Char → Option (List Char)) (u : List Cha
 /-! ## `minify.Mediatype`
 
 The Go function compacts in place: `j` = bytes already moved to the front, `start` = first byte of the run not
-yet moved.  Writing `V` for the *virtual output* (moved bytes followed by the pending run) and `δ = start - j`
-(the number of whitespace bytes removed so far), the state is `(V, j, δ, L, inString)`, `L = lastString`.
-`lastString` is computed in output coordinates but used as a buffer index: at an opening quote the call
-`ToLower(b[lastString:i])` lower-cases the virtual positions `[L, j) ∪ [max (L-δ) j, |V|)` — when the previous
-string was closed inside the pending run (`j < L`) that reaches `δ` bytes back into it. -/
+yet moved.  Writing `V` for the *virtual output* (moved bytes followed by the pending run) and `δ` for the number
+of whitespace bytes removed so far, the state is `(V, δ, L, inString, escaped)`, `L = lastString`.  When a string
+closes the pending run is moved into place, so `lastString ≤ j ≤ start` and the call `ToLower(b[lastString:i])`
+at the next opening quote lower-cases exactly the virtual positions `[L, |V|)` (plus a stale gap that is never read
+again); the test `i - lastString < 1024` is `|V| + δ - L < 1024`.  Inside a string the byte after a backslash is
+skipped. -/
 
 structure MtState where
   v : List Char := []      -- virtual output, reversed
   len : Nat := 0           -- |v|
-  j : Nat := 0
   delta : Nat := 0
   last : Nat := 0
   inStr : Bool := false
+  esc : Bool := false
 
-/-- lower-case the positions `[lo, hi)` of a list -/
-def lowerRange (lo hi : Nat) : Nat → List Char → List Char
-  | _, [] => []
-  | i, c :: r => (if lo ≤ i ∧ i < hi then toLower c else c) :: lowerRange lo hi (i + 1) r
-
-/-- the same on a reversed list of length `n` (position of the head is `n-1`) -/
+/-- lower-case the positions `[lo, hi)` of a reversed list of length `n` (position of the head is `n-1`) -/
 def lowerRangeRev (lo hi : Nat) : Nat → List Char → List Char
   | _, [] => []
   | n, c :: r => (if lo ≤ n - 1 ∧ n - 1 < hi then toLower c else c) :: lowerRangeRev lo hi (n - 1) r
 
 def mtStep (s : MtState) (c : Char) : MtState :=
-  if !s.inStr && isWs c then
-    { s with j := s.len, delta := s.delta + 1 }
+  if s.esc then
+    { s with v := c :: s.v, len := s.len + 1, esc := false }
+  else if !s.inStr && isWs c then
+    { s with delta := s.delta + 1 }
   else if c = '"' then
     if !s.inStr then
       -- opening quote: `if i-lastString < 1024 { ToLower(b[lastString:i]) }`, i = len + delta
-      let v1 :=
-        if s.len + s.delta - s.last < 1024 then
-          lowerRangeRev (max (s.last - s.delta) s.j) s.len s.len (lowerRangeRev s.last s.j s.len s.v)
-        else s.v
+      let v1 := if s.len + s.delta - s.last < 1024 then lowerRangeRev s.last s.len s.len s.v else s.v
       { s with v := c :: v1, len := s.len + 1, inStr := true }
     else
       { s with v := c :: s.v, len := s.len + 1, inStr := false, last := s.len + 1 }
+  else if s.inStr && c = '\\' then
+    { s with v := c :: s.v, len := s.len + 1, esc := true }
   else
     { s with v := c :: s.v, len := s.len + 1 }
 
